@@ -98,6 +98,50 @@ Theorem C19_protected_user_variables : forall cfg, cfg_ok cfg = true ->
   forall t k, In t var_tables -> ~ In (t, Some k) (soft cfg ++ writer_writes cfg) -> protected cfg (t, k).
 Proof. intros cfg Hok. exact (protected_user cfg Hok). Qed.
 
+(* Non-vacuity: an inventory with an lru-cached query, a slot keyed by the
+   option its value depends on, a nested call, a modifier that clears both, a
+   writer that adds a settings key and a derivation with its own table passes
+   the check; the machine (toy semantics) then answers like the memory-less
+   machine on a history that mixes all of them; dropping the clears, the slot
+   key, or sharing the table is rejected. *)
+Definition good_cfg : config := mkcfg
+  [ mkq "incidence" 0 (Some (Some 1)) None ["order1_only"] [("nodes", None); ("elements", None)] [] [];
+    mkq "adjacency" 1 (Some (Some 2)) None ["mode"] [("nodes", None); ("elements", None)]
+        [("elemental_data", Some "degree")] [mkdep "incidence" false];
+    mkq "volumes" 0 None (Some ("volume", ["mode"])) ["mode"] [("nodes", None); ("elements", None)] [] [] ]
+  [ mke "remove_useless_nodes" false [] [("nodes", None); ("nodal_data", None)]
+        ["incidence"; "adjacency"] ["volumes"];
+    mke "make_positive" false ["volumes"] [("elements", None)] ["incidence"; "adjacency"] ["volumes"];
+    mke "write_fistr" true [] [("settings", Some "solution_type")] [] [] ]
+  [ mkd "to_surface" ["adjacency"] false [] ].
+
+Example good_cfg_ok : cfg_ok good_cfg = true.
+Proof. vm_compute. reflexivity. Qed.
+
+Definition good_history : list op :=
+  [New 0; New 1; Query 0 "adjacency" [("mode", "nodal")]; Query 0 "volumes" [("mode", "linear")];
+   Query 1 "adjacency" [("mode", "nodal")]; Query 0 "volumes" [("mode", "centroid")];
+   Effect 0 "remove_useless_nodes"; Query 0 "adjacency" [("mode", "nodal")]; Effect 0 "make_positive";
+   Query 0 "volumes" [("mode", "centroid")]; Derive 0 2 "to_surface"; Query 2 "volumes" [("mode", "centroid")];
+   Effect 1 "write_fistr"; Query 1 "adjacency" [("mode", "nodal")]; Query 0 "incidence" []].
+
+Example good_cfg_history_independent :
+  tdiffers good_cfg good_history = false /\ length (trun good_cfg good_history) = 9.
+Proof. vm_compute. split; reflexivity. Qed.
+
+Definition bad_cfg_no_clear : config := mkcfg (queries good_cfg)
+  [ mke "remove_useless_nodes" false [] [("nodes", None); ("nodal_data", None)] [] [] ] (derivs good_cfg).
+Definition bad_cfg_slot_key : config := mkcfg
+  [ mkq "volumes" 0 None (Some ("volume", [])) ["mode"] [("nodes", None); ("elements", None)] [] [] ] [] [].
+Definition bad_cfg_share : config := mkcfg (queries good_cfg) (effects good_cfg)
+  [ mkd "to_polyhedron" [] true [] ].
+
+Example bad_cfgs_rejected :
+  cfg_ok bad_cfg_no_clear = false /\ cfg_ok bad_cfg_slot_key = false /\ cfg_ok bad_cfg_share = false /\
+  tdiffers bad_cfg_no_clear [New 0; Query 0 "incidence" []; Effect 0 "remove_useless_nodes"; Query 0 "incidence" []] = true /\
+  tdiffers bad_cfg_slot_key [New 0; Query 0 "volumes" [("mode", "linear")]; Query 0 "volumes" [("mode", "centroid")]] = true.
+Proof. vm_compute. repeat split; reflexivity. Qed.
+
 Print Assumptions C19_purity.
 Print Assumptions C19_queries_preserve.
 Print Assumptions C19_writers_preserve.
